@@ -388,7 +388,7 @@ pub fn decide(ctx: &Ctx, c: &CaseInput) -> Outcome {
 
 pub fn decide_within(ctx: &Ctx, c: &CaseInput, limit: Duration) -> Outcome {
     if !c.payload && c.files.iter().any(|f| c11gen::branching_self_reference(&f.1)) {
-        return Outcome::skip("excluded by construction: a definition referring to itself twice (listed finding hang:pass2:rec_const)");
+        return Outcome::skip("excluded by construction: a definition referring to itself twice (listed finding hang:rec_const)");
     }
     let job = Job {
         modes: c.modes.clone(),
@@ -401,7 +401,8 @@ pub fn decide_within(ctx: &Ctx, c: &CaseInput, limit: Duration) -> Outcome {
         Ran::TimedOut { mode, stage, used, wall } => {
             // A time limit never makes a violation.  Only the reproducer of a *listed* hang
             // (demonstrated against the real binary) reports its KNOWN-FINDING line this way.
-            let sig = format!("hang:{stage}:{}", c.family);
+            // (no stage in the key: at a time-out the last stage line may still be in the pipe)
+            let sig = format!("hang:{}", c.family);
             if ctx.findings().iter().any(|k| k.key == sig && k.status == "known") {
                 return Outcome::fail(sig, format!("the `{mode}` pipeline did not finish stage `{stage}` within {} CPU-s", limit.as_secs()), input);
             }
